@@ -135,6 +135,32 @@ func prims(fd *ast.FuncDecl) []string {
 	return out
 }
 
+// the statements of the block of View.Offset that declares `newSet` (the rows after the offset) — the in-place move
+func offsetShift(fd *ast.FuncDecl) []string {
+	var out []string
+	found := 0
+	ast.Inspect(fd.Body, func(n ast.Node) bool {
+		blk, ok := n.(*ast.BlockStmt)
+		if !ok {
+			return true
+		}
+		for _, st := range blk.List {
+			if as, ok := st.(*ast.AssignStmt); ok && as.Tok == token.DEFINE && len(as.Lhs) == 1 && src(as.Lhs[0]) == "newSet" {
+				found++
+				for _, s := range blk.List {
+					out = append(out, src(s))
+				}
+				return false
+			}
+		}
+		return true
+	})
+	if found != 1 {
+		die("View.Offset: expected exactly one block that declares newSet, found %d", found)
+	}
+	return out
+}
+
 func main() {
 	repo := os.Getenv("VERIF_REPO")
 	if repo == "" {
@@ -172,6 +198,9 @@ func main() {
 		}
 		p("  (%s, %s)%s\n", lit(n), list(prims(fn(v, "View", n))), sep)
 	}
-	p("]\n\nend Csvq.Gen\n")
+	p("]\n\n")
+	p("/-- View.Offset: the statements of the branch that keeps the rows after the offset (the in-place shift of Model/Shift.lean) -/\n")
+	p("def offsetShift : List String := %s\n", list(offsetShift(fn(v, "View", "Offset"))))
+	p("\nend Csvq.Gen\n")
 	fmt.Print(b.String())
 }
